@@ -17,7 +17,7 @@ try:
     demo_src = os.path.join(src, meta["demo_file"])
     demo_dst = os.path.join(wt, meta["demo_dest"])
     import re
-    cmd = re.sub(r"/tmp/wt/(R[2345])?%s(?![.\w])" % meta["property"], wt, meta["demo_cmd"])
+    cmd = re.sub(r"/tmp/wt/(R[23456])?%s(?![.\w])" % meta["property"], wt, meta["demo_cmd"])
     os.makedirs(os.path.dirname(demo_dst), exist_ok=True)
     shutil.copy(demo_src, demo_dst)
     rc, out = sh(cmd); ran["demo_clean"] = {"cmd": cmd, "rc": rc}
